@@ -16,7 +16,7 @@ import os
 
 from framework import REPO, ROOT
 
-TIE = ["Nsq.Tie.DiskQueue"]
+TIE = ["Nsq.Tie.DiskQueue", "Nsq.Tie.DiskQueueArgs"]
 PROPS = ["Nsq.Props.E9DiskQueue"]
 TRUSTED = [
     "go-diskqueue v1.1.0 is MODELLED (lean/Nsq/Model/DiskQueue.lean: files, metadata file, read/write positions, "
@@ -80,6 +80,7 @@ def run_corr(ctx, binp, corr_broken, seed, n, steps, label):
 def leg(ctx, corr_broken, with_lean=True):
     ctx.trusted += TRUSTED
     ctx.gen("e9_dq")
+    ctx.gen("e9_dqargs")  # diskqueue.New(...) arguments of NewTopic/NewChannel as translated expressions
     if with_lean:
         ok, log = ctx.lean_build(TIE + PROPS)
         if not ok:
